@@ -259,6 +259,23 @@ for trial in range(12 * SCALE):
             fail("bundle-table", f"table shows {f[1]} .. {f[2]} for a bundle parsed as {bnd.inception.isoformat()} .. {bnd.expiration.isoformat()}", {"line": line})
             break
 
+# the table lists every key of a bundle: two ZSKs that share their 16-bit key tag (a roll between them) are two entries
+_ta, _tb = ksrxml.POOL.rsa_tag_collision(8, 256, 1024)
+_TW = [ksrxml.mk_key(_ta, alg=8, ident="ZSK-twin-a"), ksrxml.mk_key(_tb, alg=8, ident="ZSK-twin-b")]
+ksrxml.POOL.save()
+_third = skrgen.zsk(2)
+for slots_ in ([_TW, [_TW[1]], [_TW[1], _third]], [[_TW[0], _third, _TW[1]], [_third]], [[_third], [_TW[1], _TW[0]]]):
+    kreqT = skrgen.k_request(skrgen.honest_request("twins", NOW + D(days=3), len(slots_), slots_, ksrxml.default_zsk_policy(), sign=True))
+    table = format_bundles_for_humans(kreqT.bundles)
+    count("bundle-table-equal-tags")
+    for line, bnd in zip(table[1:], kreqT.bundles):
+        f = line.split()
+        shown = sorted(f[3].split(",")) if len(f) > 3 else []
+        want_tags = sorted(str(k.key_tag) for k in bnd.keys if k.flags == 256)
+        if shown != want_tags:
+            fail("bundle-table", f"bundle with ZSK key tags {want_tags} (two different keys share a tag) is shown with ZSK tags {shown}", {"line": line})
+            break
+
 # ------------------------------------------------------------------ 3. ksrsigner(): what the operator sees before confirming, and the written SKR
 from kskm.tools.ksrsigner import ksrsigner
 
